@@ -465,6 +465,12 @@ where
             res = txs_receiver.receive() => res,
         };
         let tx = res.expect("receiving tx");
+        // transactions come from the network, so their size cannot be trusted;
+        // an oversized one would overrun the space reserved for the slice
+        if tx.0.len() > MAX_TRANSACTION_SIZE {
+            warn!("dropping oversized transaction of {} bytes", tx.0.len());
+            continue;
+        }
         tx_count += 1;
         wincode::serialize_into(&mut buffer, &tx)
             .expect("serializing transaction into buffer should not fail");
